@@ -63,20 +63,21 @@ type faceKey struct {
 }
 
 type cluster struct {
-	said    map[faceKey]map[string]string // -> face -> digest of the statement (endorsed / committed / proposed block hash)
-	cc      clusterCfg
-	sch     schedule
-	rng     *vf.RNG
-	mu      sync.Mutex
-	conns   []*nconn
-	seals   map[string][]seal // node key -> seals in report order
-	seq     uint64
-	groupA  map[uint32]bool // honest peers that see twin a
-	groupB  map[uint32]bool
-	part    map[uint32]int // partition id of honest peers (when Partition)
-	stats   map[string]int64
-	stopped atomic.Bool
-	hostile atomic.Bool // faults start once the cluster is up (>=2 honest nodes reported height>=2)
+	said     map[faceKey]map[string]string // -> face -> digest of the statement (endorsed / committed / proposed block hash)
+	cc       clusterCfg
+	sch      schedule
+	rng      *vf.RNG
+	mu       sync.Mutex
+	conns    []*nconn
+	seals    map[string][]seal // node key -> seals in report order
+	seq      uint64
+	groupA   map[uint32]bool // honest peers that see twin a
+	groupB   map[uint32]bool
+	part     map[uint32]int // partition id of honest peers (when Partition)
+	stats    map[string]int64
+	stopped  atomic.Bool
+	faultsOn atomic.Bool // toggled by the phase scheduler during the hostile part of the run
+	hostile  atomic.Bool // faults start once the cluster is up (>=2 honest nodes reported height>=2)
 }
 
 func (cl *cluster) count(k string) {
@@ -100,10 +101,10 @@ func (cl *cluster) regroup() {
 		if cl.isFaulty(uint32(i)) {
 			continue
 		}
-		switch cl.rng.Intn(8) {
-		case 0, 1, 2:
+		switch cl.rng.Intn(4) {
+		case 0:
 			cl.groupA[uint32(i)] = true
-		case 3, 4, 5:
+		case 1:
 			cl.groupB[uint32(i)] = true
 		default: // some honest nodes see both faces
 			cl.groupA[uint32(i)] = true
@@ -145,9 +146,13 @@ func (cl *cluster) inspect(from *nconn, payload []byte) {
 		}
 		digest = fmt.Sprint(m["endorsed_block_hash"], m["commit_block_hash"], m["endorsed_proposer"], m["block_proposer"], m["endorse_for_empty"], m["commit_for_empty"])
 	case vbft.BlockProposalMessage:
+		m, err := vbft.DeserializeVbftMsg(cp.Data)
+		if err != nil {
+			return
+		}
+		blk = m.GetBlockNum()
 		h := sha256.Sum256(w.Payload)
 		digest = hex.EncodeToString(h[:8])
-		blk = 0 // block number is inside the binary block; proposals are keyed by digest only
 	default:
 		return
 	}
@@ -158,13 +163,16 @@ func (cl *cluster) inspect(from *nconn, payload []byte) {
 	}
 	if _, ok := cl.said[k][from.inst]; !ok {
 		cl.said[k][from.inst] = digest
-		if w.Type != vbft.BlockProposalMessage {
+		{
 			other := "a"
 			if from.inst == "a" {
 				other = "b"
 			}
-			if od, ok := cl.said[k][other]; ok && od != digest {
-				cl.stats["byzantine_equivocations"]++
+			if od, ok := cl.said[k][other]; ok {
+				cl.stats["both_faces_spoke_for_same_height_and_type"]++
+				if od != digest {
+					cl.stats["byzantine_equivocations"]++
+				}
 			}
 		}
 	}
@@ -189,15 +197,8 @@ func (cl *cluster) route(from *nconn, destIdx uint32, payload []byte) {
 		if c.idx != destIdx || c == from {
 			continue
 		}
-		if !cl.hostile.Load() {
-			// warm-up: only the twins' separation is in force (the two faces never see each other's audience mixed up before faults start)
-			if from.faulty && from.inst == "b" || c.faulty && c.inst == "b" {
-				continue // face b stays silent during warm-up
-			}
-			dests = append(dests, c)
-			continue
-		}
-		// twins: each face of a faulty peer talks to its own audience only
+		// twins: each face of a faulty peer talks to its own audience only (in force from the start, so
+		// that both faces follow the chain and equivocate in the same rounds)
 		if from.faulty && from.inst != "" && !c.faulty {
 			if (from.inst == "a" && !cl.groupA[c.idx]) || (from.inst == "b" && !cl.groupB[c.idx]) {
 				cl.stats["twin_face_hidden"]++
@@ -210,25 +211,25 @@ func (cl *cluster) route(from *nconn, destIdx uint32, payload []byte) {
 			}
 		}
 		// a single faulty instance withholds messages selectively
-		if from.faulty && from.inst == "" && r.Chance(35) {
+		if cl.faultsOn.Load() && from.faulty && from.inst == "" && r.Chance(35) {
 			cl.stats["faulty_withheld"]++
 			continue
 		}
-		if cl.sch.Partition && !from.faulty && !c.faulty && cl.part[from.idx] != cl.part[c.idx] {
+		if cl.faultsOn.Load() && cl.sch.Partition && !from.faulty && !c.faulty && cl.part[from.idx] != cl.part[c.idx] {
 			cl.stats["partition_drop"]++
 			continue
 		}
 		dests = append(dests, c)
 	}
-	drop := cl.hostile.Load() && r.Chance(cl.sch.DropPct)
+	drop := cl.faultsOn.Load() && r.Chance(cl.sch.DropPct)
 	delay := 0
-	if cl.sch.MaxDelayMs > 0 && cl.hostile.Load() {
+	if cl.sch.MaxDelayMs > 0 && cl.faultsOn.Load() {
 		delay = r.Intn(cl.sch.MaxDelayMs + 1)
 		if r.Chance(70) {
 			delay /= 8 // most messages are fast, a tail is slow => reordering
 		}
 	}
-	dup := cl.hostile.Load() && r.Chance(cl.sch.DupPct)
+	dup := cl.faultsOn.Load() && r.Chance(cl.sch.DupPct)
 	cl.stats["routed"]++
 	if drop {
 		cl.stats["dropped"]++
@@ -388,7 +389,21 @@ func runCluster(r *vf.Run, id int, sch schedule, N, C int, blockMs uint32, wall 
 	if !cl.hostile.Load() {
 		r.Inconclusive(fmt.Sprintf("cluster %d (%s): never sealed 2 blocks during warm-up", id, sch.Name))
 	}
-	time.Sleep(wall) // wall clock bounds the RUN only; the verdict below is on recorded histories
+	// hostile part: fault windows alternate with calm windows (intermittent faults let the cluster
+	// make progress under the new conditions); audiences / partitions are re-drawn at every window.
+	// Wall clock paces the RUN only; the verdict below is on recorded histories.
+	end := time.Now().Add(wall)
+	wr := cl.rng.Sub(777)
+	for time.Now().Before(end) {
+		cl.mu.Lock()
+		cl.regroup()
+		cl.stats["fault_windows"]++
+		cl.mu.Unlock()
+		cl.faultsOn.Store(true)
+		time.Sleep(time.Duration(2500+wr.Intn(4000)) * time.Millisecond)
+		cl.faultsOn.Store(false)
+		time.Sleep(time.Duration(1500+wr.Intn(2000)) * time.Millisecond)
+	}
 	cl.stopped.Store(true)
 	for _, c := range conns {
 		writeFrame(c.conn, &c.mu, 'Q', 0, nil)
@@ -476,7 +491,8 @@ func runCluster(r *vf.Run, id int, sch schedule, N, C int, blockMs uint32, wall 
 	r.Add("messages_dropped", cl.stats["dropped"]+cl.stats["partition_drop"])
 	r.Add("messages_duplicated", cl.stats["duplicated"])
 	r.Add("twin_face_hidden", cl.stats["twin_face_hidden"])
-	r.Add("byzantine_equivocations(same peer, same block, different endorse/commit statements)", cl.stats["byzantine_equivocations"])
+	r.Add("byzantine_equivocations(same peer, same height, different proposal/endorse/commit statements)", cl.stats["byzantine_equivocations"])
+	r.Add("twin_faces_both_spoke_for_same_height_and_type", cl.stats["both_faces_spoke_for_same_height_and_type"])
 	r.Add("faulty_withheld", cl.stats["faulty_withheld"])
 	r.Count("clusters_run/" + sch.Name)
 	fp := ""
@@ -555,7 +571,7 @@ func main() {
 	r.Require("clusters_run/twins", 1)
 	r.Require("clusters_run/reorder+loss", 1)
 	r.Require("twin_face_hidden", 10)
-	r.Require("byzantine_equivocations(same peer, same block, different endorse/commit statements)", 1)
+	r.Require("twin_faces_both_spoke_for_same_height_and_type", 1)
 	r.Require("messages_dropped", 20)
 	r.Assume("VBFT timers are wall-clock, so a schedule is not bit-reproducible; the verdict is computed offline from recorded seal histories only")
 	r.Assume("safety only: progress is not asserted; tens of schedules out of an astronomically large space")
